@@ -1,5 +1,6 @@
 """C10 - transposition shifts every pitch, key and chord by the same interval (DESIGN.md §4 C10)."""
 import ast
+import re
 
 from sa import own, cov, nf, fold, roles, astutil as U
 from sa.roles import Canon
@@ -55,6 +56,9 @@ def run(ctx):
                                    s.value.args and any(isinstance(l, ast.For) and norm_text(l.iter).endswith('.notes') and norm_text(s.value.args[0]) == norm_text(l.target)
                                                         for l in fn.body)],
   }, required=False))
+  # location-independent rules first: an anchored rule that gives up must not mask them
+  drum_conditions(ctx, fi, 'DRUM/keep-condition')
+  drum_total_time(ctx, fi, 'DRUM/total-time')
   operand(ctx, cfi)
   drums(ctx, cfi)
   frame(ctx, fi, res)
@@ -135,6 +139,91 @@ def _fold_num(ctx, mi, node):
   return v if isinstance(v, (int, float)) else None
 
 
+def tv(node, env):
+  """Three-valued evaluation of a condition when only the atoms in `env` (normalised text -> bool) are known."""
+  t = norm_text(node)
+  if t in env:
+    return env[t]
+  if isinstance(node, ast.UnaryOp) and isinstance(node.op, ast.Not):
+    v = tv(node.operand, env)
+    return None if v is None else (not v)
+  if isinstance(node, ast.BoolOp):
+    vals = [tv(x, env) for x in node.values]
+    if isinstance(node.op, ast.And):
+      return False if any(x is False for x in vals) else (True if all(x is True for x in vals) else None)
+    return True if any(x is True for x in vals) else (False if all(x is False for x in vals) else None)
+  if isinstance(node, ast.Constant) and isinstance(node.value, bool):
+    return node.value
+  return None
+
+
+def tv_all(conds, env):
+  vals = [(None if tv(t, env) is None else (tv(t, env) == pol)) for (t, pol) in conds]
+  return False if any(x is False for x in vals) else (True if all(x is True for x in vals) else None)
+
+
+def note_loops(fn):
+  """(loop-or-comprehension, variable) for every iteration over notes in the function."""
+  for n in ast.walk(fn):
+    if isinstance(n, ast.For) and isinstance(n.target, ast.Name):
+      yield n, n.target.id
+    elif isinstance(n, (ast.ListComp, ast.GeneratorExp)) and len(n.generators) == 1 and isinstance(n.generators[0].target, ast.Name):
+      yield n, n.generators[0].target.id
+
+
+def drum_conditions(ctx, fi, rule):
+  """Location-independent: wherever a note is recorded as kept (`<list>.append(note)` in a loop over .notes, or the filter of a
+  comprehension over .notes), the conditions known to hold there - enclosing tests and negated early exits - evaluated with
+  `note.is_drum` true and everything else unknown must come out true: a drum note is kept whatever its pitch."""
+  fn = fi.node
+  for loop, v in note_loops(fn):
+    src = loop.iter if isinstance(loop, ast.For) else loop.generators[0].iter
+    if not norm_text(src).endswith('.notes'):
+      continue
+    env = {'%s.is_drum' % v: True}
+    if isinstance(loop, ast.For):
+      for s in U.walk_stmts(loop):
+        if isinstance(s, ast.Expr) and isinstance(s.value, ast.Call) and isinstance(s.value.func, ast.Attribute) and s.value.func.attr == 'append' and \
+           len(s.value.args) == 1 and norm_text(s.value.args[0]) == v:
+          conds = [(U.expand_locals(fn, t, at=s), p) for t, p in U.path_conditions(fn, s, stop_at=loop)]
+          r = tv_all(conds, env)
+          residual = [(t, p) for t, p in conds if tv(t, env) is None or (tv(t, env) != p)]
+          if r is not True and not all(any(b_ in U.names_in(t) for b_ in ('min_allowed_pitch', 'max_allowed_pitch')) for t, p in residual):
+            continue      # the remaining conditions are not (only) the pitch range test: not positively located, no verdict here
+          ctx.ob(rule, fi, s, r is True, 'a drum note is kept whatever its pitch' if r is True else
+                 'a drum note reaches %s only if %s: drum notes must be left alone, not subjected to the pitch range test' % (
+                     norm_text(s), ' and '.join(('' if p else 'not ') + '(' + norm_text(t) + ')' for t, p in conds if tv(t, env) is None or (tv(t, env) != p))),
+                 construct='condition under which a drum note is kept', definite=True)
+    elif isinstance(loop.elt, ast.Name) and loop.elt.id == v:
+      conds = [(U.expand_locals(fn, t, at=loop), True) for t in loop.generators[0].ifs]
+      r = tv_all(conds, env) if conds else True
+      residual = [(t, p) for t, p in conds if tv(t, env) is None or (tv(t, env) != p)]
+      if r is not True and not all(any(b_ in U.names_in(t) for b_ in ('min_allowed_pitch', 'max_allowed_pitch')) for t, p in residual):
+        continue
+      ctx.ob(rule, fi, loop, r is True, 'a drum note is kept whatever its pitch' if r is True else
+             'the filter %s can drop a drum note' % ' and '.join(norm_text(t) for t, _p in conds), construct='condition under which a drum note is kept', definite=True)
+
+
+def drum_total_time(ctx, fi, rule):
+  """Location-independent: a running maximum over note end times that is definitely skipped for drum notes (its conditions
+  evaluate to false with `note.is_drum` true) leaves a kept drum note outside total_time."""
+  fn = fi.node
+  tt = [s for s in ast.walk(fn) if isinstance(s, ast.Assign) and norm_text(s.targets[0]).endswith('.total_time') and isinstance(s.value, ast.Name)]
+  if len(tt) != 1:
+    return
+  acc = tt[0].value.id
+  for loop, v in note_loops(fn):
+    if not isinstance(loop, ast.For):
+      continue
+    for s in U.walk_stmts(loop):
+      if isinstance(s, ast.Assign) and norm_text(s.targets[0]) == acc and any(norm_text(a) == '%s.end_time' % v for a in ast.walk(s.value)):
+        conds = [(U.expand_locals(fn, t, at=s), p) for t, p in U.path_conditions(fn, s, stop_at=loop)]
+        r = tv_all(conds, {'%s.is_drum' % v: True})
+        if r is False:
+          ctx.ob(rule, fi, s, False, 'the running maximum %s is never updated for a drum note (%s): a kept drum note may end after total_time' % (
+              acc, ' and '.join(('' if p else 'not ') + norm_text(t) for t, p in conds)), construct='total_time covers drum notes', definite=True)
+
+
 def drums(ctx, fi):
   fn = fi.node
   loop = next((n for n in fn.body if isinstance(n, ast.For) and norm_text(n.iter).endswith('.notes')), None)
@@ -168,6 +257,7 @@ def kept_total_time(ctx, fi, rule):
   """transpose_note_sequence recomputes total_time: it must be the max end over exactly the kept notes (drum notes
   included), i.e. the max-reduction sits directly in the keep branch.  Shared with C11 (total_time covers every note)."""
   fn = fi.node
+  drum_total_time(ctx, fi, rule)
   loop = next((n for n in fn.body if isinstance(n, ast.For) and norm_text(n.iter).endswith('.notes')), None)
   ctx.require(loop is not None, 'transpose_note_sequence: note loop not found')
   v = loop.target.id
@@ -342,10 +432,98 @@ def passthrough(ctx):
            construct='printed pair %d <- one transposed pair' % (i + 1))
 
 
+def melody_paths(ctx, fi, N):
+  """Location-independent: every path through the body of Melody.transpose's loop is followed by substitution (sa.pathval), its
+  tests are matched against the four cases of the property - special event; pitch + amount below min_note; at or above
+  max_note; inside - and the value it leaves in the event is compared, as a normal form with the residue algebra of sa.nf
+  (x % 12 and x // 12 as linear forms), with   P  /  min_note + (q - min_note) % 12  /  max_note - 12 + (q - max_note) % 12  /  q
+  where q = P + transpose_amount.  Equal normal forms: the case holds however the arithmetic is written.  A difference that is
+  a non-zero constant, or a multiple of the indicator [x % 12 == 0], is a definite violation (the latter: exactly the pitches a
+  whole number of octaves outside the range are folded into the wrong octave).  Anything else: no verdict from this rule."""
+  from sa import pathval
+  fn = fi.node
+  loops = [n for n in fn.body if isinstance(n, ast.For)]
+  if len(loops) != 1:
+    return
+  loop = loops[0]
+  P = ast.Name(id='P', ctx=ast.Load())
+  it, tg = loop.iter, loop.target
+  env = {}
+  if isinstance(it, ast.Call) and dotted(it.func) == 'range' and len(it.args) == 1 and norm_text(it.args[0]) in ('len(self)', 'len(self._events)') and isinstance(tg, ast.Name):
+    i = tg.id
+  elif isinstance(it, ast.Call) and dotted(it.func) == 'enumerate' and len(it.args) == 1 and norm_text(it.args[0]) in ('self', 'self._events') and \
+      isinstance(tg, ast.Tuple) and len(tg.elts) == 2 and all(isinstance(e, ast.Name) for e in tg.elts):
+    i = tg.elts[0].id
+    env[tg.elts[1].id] = P
+  else:
+    return
+  locs = ('self._events[%s]' % i, 'self[%s]' % i)
+  for l in locs:
+    env[l] = P
+  try:
+    ps = pathval.paths(loop.body, env)
+  except pathval.PathError:
+    return
+  cenv = {'NOTES_PER_OCTAVE': ast.Constant(value=N)}
+
+  def R(x):
+    return nf.Builder(dict(cenv), int_mod=True).rat(x)
+
+  def C(text, pol=True):
+    return nf.compare_nf(E(text), dict(cenv), polarity=pol)
+  special, pitched = C('P < MIN_MIDI_PITCH'), C('P < MIN_MIDI_PITCH', False)
+  low, notlow = C('P + transpose_amount < min_note'), C('P + transpose_amount < min_note', False)
+  high, nothigh = C('P + transpose_amount >= max_note'), C('P + transpose_amount >= max_note', False)
+  want = {'special': ('P', 'a special event is left alone'),
+          'low': ('min_note + (P + transpose_amount - min_note) %% %d' % N, 'a pitch below min_note is raised by whole octaves into the lowest octave of the range'),
+          'high': ('max_note - %d + (P + transpose_amount - max_note) %% %d' % (N, N), 'a pitch at or above max_note is lowered by whole octaves into the highest octave of the range'),
+          'mid': ('P + transpose_amount', 'a pitch inside the range moves by transpose_amount')}
+  for conds, out, _end in ps:
+    try:
+      cs = [nf.compare_nf(t, dict(cenv), polarity=p) for t, p in conds]
+    except nf.NFError:
+      continue
+
+    def has_c(ref):
+      return any(c is not None and nf.compare_equal(c, ref) for c in cs)
+    if has_c(special):
+      kind = 'special'
+    elif not has_c(pitched):
+      continue
+    elif has_c(low):
+      kind = 'low'
+    elif has_c(high):
+      kind = 'high'
+    elif has_c(notlow) and has_c(nothigh):
+      kind = 'mid'
+    else:
+      continue
+    finals = [out[l] for l in locs if l in out and out[l] is not P]
+    final = finals[-1] if finals else P
+    try:
+      d = R(final) - R(E(want[kind][0]))
+    except nf.NFError:
+      continue
+    node = loop
+    if d.is_zero():
+      ctx.ob('SEQ/melody-case', fi, node, True, '%s (%s)' % (want[kind][1], kind), construct='Melody.transpose: %s case' % kind, definite=True)
+      continue
+    atoms = d.n.atoms()
+    dc = d.const_value()
+    if (dc is not None and dc != 0) or (atoms and all(a.startswith('Z[') for a in atoms) and d.d.is_const()):
+      ctx.ob('SEQ/melody-case', fi, node, False, 'in the %s case the event becomes %s; required: %s.  The difference is %r%s' % (
+          kind, re.sub(r'\bP\b', 'event', norm_text(final)), want[kind][1], d,
+          ' - Z[x|12] is 1 exactly when x is a multiple of 12: pitches a whole number of octaves outside the range land one octave off, outside [min_note, max_note)' if atoms else ''),
+             construct='Melody.transpose: %s case' % kind, definite=True)
+
+
 def sequences(ctx):
   fd = fold.Folder(ctx.P, ctx.S)
   # Melody.transpose
   fi = ctx.func('melodies_lib:Melody.transpose')
+  N0 = fd.module_const(fi.module, 'NOTES_PER_OCTAVE')
+  if isinstance(N0, int) and N0 > 0:
+    melody_paths(ctx, fi, N0)
   fi = Canon(fi, roles.discover(fi, {'i': lambda fn: [n.target.id for n in fn.body if isinstance(n, ast.For) and isinstance(n.target, ast.Name)]}))
   fn = fi.node
   N = fold.need(lambda: fd.module_const(fi.module, 'NOTES_PER_OCTAVE'), 'melodies_lib.NOTES_PER_OCTAVE')
